@@ -602,7 +602,9 @@ pub fn build(_tier: Tier) -> CheckDef {
         level: "model_checking",
         rule: "complete enumeration of the range-geometry alphabet (every combination of offset, size, type and flags, incl. zero-length, EOF-touching, one-past-EOF and overflowing ranges) for caller-supplied headers, and every real section/segment of the generated and sample files; each returned slice is compared by POINTER and length with the reference-computed designated range (never by content only). non-trivial = geometry whose range fits".into(),
         assumptions: vec!["relocation and dynamic views expose no slice; their entries are compared with a reference decode of the designated range".into()],
-        spaces: vec![Box::new(Crafted), Box::new(InPlace { sks }), Box::new(NameTable), Box::new(Linked)],
+        spaces: vec![Box::new(Crafted), Box::new(InPlace { sks }), Box::new(NameTable), Box::new(Linked),
+            // note names and descriptors through both parsers under every alignment, type and size residue
+            Box::new(super::c14::ThroughFile)],
         abort_is_violation: false,
         hang_is_violation: false,
         exhaustive: true,
